@@ -588,7 +588,13 @@ func requesterLeaks(c *Ctx, p *Path, e *Event, a *Term, secrets []string) string
 			}
 			return ""
 		case w.IsCall(".GetSanitationWhiteList"):
-			return "" // operator's configured whitelist
+			// the operator's configured whitelist is meant for the authorization request (default: code,
+			// redirect_uri — an authorization request carries no code). Applied to a token-endpoint
+			// request it keeps the complete authorization code in the stored form.
+			if hasStr(secrets, "code") {
+				return "the authorize-side sanitation whitelist (default keeps \"code\") is applied to a token-endpoint request, whose form carries the complete authorization code"
+			}
+			return ""
 		case w.Op == "global":
 			if vals, ok := c.P.GlobalStringSlice(w.Name); ok {
 				for _, v := range vals {
